@@ -24,6 +24,7 @@ Definition se_h_lib : Z := 2.   (* the library: queue node (coap_wait_ack), obse
 
 Definition se_state_none : Z := 0.          (* COAP_SESSION_STATE_NONE *)
 Definition se_state_established : Z := 4.   (* COAP_SESSION_STATE_ESTABLISHED *)
+Definition se_state_csm : Z := 3.           (* COAP_SESSION_STATE_CSM *)
 
 Record se_sess := mkSess {
   ss_id : Z;               (* identity (serial number of creation) *)
@@ -59,6 +60,8 @@ Inductive se_op :=
 | OpRxV (key now victim : Z) (* the same for a new peer, the session evicted because of the idle
                                 limit being named: when several idle sessions are equally old
                                 the property does not say which of them goes *)
+| OpAccept (key now : Z)     (* coap_new_server_session: a stream connection is accepted; key
+                                names the connection *)
 | OpAdd (sid h : Z)          (* holder h takes a reference on sid *)
 | OpRem (sid h : Z)          (* holder h releases its reference *)
 | OpDq (sid : Z) (empty : bool)   (* the delay queue of sid becomes empty / non-empty *)
@@ -176,6 +179,13 @@ Definition se_rx (c : se_cfg) (st : se_st) (key now : Z) : se_st :=
   | None => se_rx_new st key now (se_rx_evict c (st_tbl st))
   end.
 
+(* coap_accept_endpoint -> coap_new_server_session: no lookup, no eviction; the session starts
+   with ref 0 and waits for the peer's CSM *)
+Definition se_accept (st : se_st) (key now : Z) : se_st :=
+  let sid := st_next st in
+  mkSt (st_tbl st ++ [mkSess sid key 0 [] now se_state_csm true]) (sid + 1)
+       (st_log st ++ [SeNew sid key]) (st_alive st) (st_leaked st).
+
 (* what the property allows as the victim: the limit is reached, the session is idle and no
    idle session is older *)
 Definition se_valid_victim (c : se_cfg) (tbl : list se_sess) (o : se_sess) : bool :=
@@ -236,6 +246,7 @@ Definition se_step (c : se_cfg) (st : se_st) (op : se_op) : se_st :=
   match op with
   | OpRx key now => se_rx c st key now
   | OpRxV key now v => se_rx_victim c st key now v
+  | OpAccept key now => se_accept st key now
   | OpAdd sid h => mkSt (se_upd sid (se_add_holder h) (st_tbl st)) (st_next st) (st_log st)
                         (st_alive st) (st_leaked st)
   | OpRem sid h => mkSt (se_upd sid (se_rem_holder h) (st_tbl st)) (st_next st) (st_log st)
@@ -265,6 +276,7 @@ Definition se_op_ok (c : se_cfg) (st : se_st) (op : se_op) : bool :=
       | None, Some o => se_valid_victim c (st_tbl st) o
       | _, _ => false
       end
+  | OpAccept key _ => match se_find key (st_tbl st) with None => true | Some _ => false end
   | OpAdd sid _ => se_live sid st
   | OpRem sid h => match se_get sid (st_tbl st) with
                    | Some s => se_has h (ss_holders s)
